@@ -8,7 +8,7 @@ MATCH = r"match_node_with_env"
 OPS_DECIDED_C04 = "frame law on trait Matcher (None => env unchanged; Some => env exactly the reference env) proved for &T, MatchAll, MatchNone, Op, Or, Not, And, All, Any"
 PROPS = {
     "C01": {
-        "units": [("ops", KINDS), ("rule_core", KINDS + "|do_match|with_"), ("rule", KINDS), ("combined", r"CombinedScan|lemma"), ("pattern", KINDS + "|match_node_impl|match_node_non_recursive"), ("atomic", KINDS), "find_all", ("referent", KINDS + "|eval_")],
+        "units": [("ops", KINDS), ("rule_core", KINDS + "|do_match|with_"), ("rule", KINDS), ("combined", r"CombinedScan|lemma"), ("pattern", KINDS + "|match_node_impl|match_node_non_recursive"), ("atomic", KINDS), "find_all", ("referent", KINDS + "|eval_"), "traversal"],
         "kani": [],
         "decided": ["FindAllNodes::next returns the first remaining node (pre-order) that the matcher matches when tried from an empty environment: the kind filter drops nothing", "potential_kinds of every matcher in ops.rs/matcher.rs over-approximates the kinds of nodes it can match (trait-level ensures); All/Any cached kinds sound (type invariant established by new via compute_kinds)"],
         "not_decided": ["run.rs/scan.rs wiring, injected languages, ordering across files"],
@@ -129,11 +129,12 @@ PROPS = {
         "assumptions": ["String::from_utf8 on replacement bytes succeeds (UTF-8 sources and templates)"],
     },
     "C19": {
-        "units": [("source", r"get_char_column|position_for_offset")],
+        "units": [("source", r"get_char_column|position_for_offset"), "traversal"],
         "kani": [],
-        "decided": ["line/column positions: position_for_offset == (line breaks before, bytes since the last one); get_char_column == characters since the last line break"],
-        "not_decided": ["children/parent/sibling/ancestor consistency and traversal orders: tree-sitter cursor behind FFI (would be axioms, not proofs)"],
-        "assumptions": [],
+        "decided": ["line/column positions: position_for_offset == (line breaks before, bytes since the last one); get_char_column == characters since the last line break",
+                    "Pre (pre-order / dfs, the iterator behind find_all and Visitor): new() starts with exactly preorder(subtree), every next() yields the head of the remaining pre-order and leaves its tail, None only when nothing is left -- every node of the subtree once, in order, never outside (relative to the T-cursor axioms)"],
+        "not_decided": ["children/parent/sibling/ancestor consistency of tree-sitter itself (FFI; assumed as T-cursor axioms)", "Post and Level traversals, calibrate_for_match, Node::ancestors / next_all / prev_all"],
+        "assumptions": ["T-cursor: TreeCursor::goto_first_child / goto_next_sibling / goto_parent behave as on a finite tree whose children know their parent and index, and never leave the subtree the cursor was created on; node ids are unique"],
     },
     "C20": {
         "kani": [K("core", "extract_meta_var_len4", "extract_meta_var over {$,A,_,1,a}^<=4 against the spelling table of the property", bound="strings over {$,A,_,1,a}, length <= 4"),
